@@ -144,7 +144,7 @@ def _flat(t):
     return out
 
 
-@contract('C13/generate_constraint', ['C13'], 'mystic/symbolic.py::generate_constraint', native=False)
+@contract('C13/generate_constraint', ['C13', 'C14'], 'mystic/symbolic.py::generate_constraint', native=False)
 def generate_constraint(h):
     """the compound constraint built from a (possibly nested) tuple of solvers -- as generate_solvers returns for a tuple
     of constraint strings -- applies EVERY solver exactly once, each to the result of the one applied before it (default
